@@ -15,6 +15,33 @@ theorem block_WF (s : Sem) (build : List Str → (Str → Bool)) (hb : SoundBuil
     BlockWF s (mkBlock s build keys pid rows) :=
   mkBlock_WF_aux s build hb keys pid rows hp hk
 
+/-- witness engine parameters: a tokenizer that splits off the first character, a membership-test filter builder -/
+private def nv_sem : Sem := { tok := fun x => [x, x.take 1], re := fun _ _ => true }
+private def nv_build : List Str → (Str → Bool) := fun l x => l.contains x
+/-- witness rows: JSON objects with an indexed numeric key `k`, in partitions `p`, `p`, `q` -/
+private def nv_row (pid : String) (n : Int) (msg : String) : Row :=
+  { json := .obj [("k".toList, .num (toString n).toList), ("msg".toList, .str msg.toList)],
+    pre := { pid := pid, vals := fun f => if f = "k" then some (.int n) else none } }
+private def nv_r1 : Row := nv_row "p" 5 "hello world"
+private def nv_r2 : Row := nv_row "p" (-3) "bye"
+private def nv_r3 : Row := nv_row "q" 40 "other"
+
+/-- non-vacuity: the premises of `block_WF` hold for a sound builder and two JSON rows of partition `p` carrying the indexed key `k`; the theorem applies -/
+example : SoundBuild nv_build ∧ (∀ r ∈ [nv_r1, nv_r2], r.pre.pid = "p") ∧
+    (∀ r ∈ [nv_r1, nv_r2], ∀ f v, r.pre.vals f = some v → f ∈ ["k"]) ∧
+    BlockWF nv_sem (mkBlock nv_sem nv_build ["k"] "p" [nv_r1, nv_r2]) := by
+  have hb : SoundBuild nv_build := by intro l x h; simp [nv_build, h]
+  have hp : ∀ r ∈ [nv_r1, nv_r2], r.pre.pid = "p" := by
+    intro r hr
+    simp only [List.mem_cons, List.not_mem_nil, or_false] at hr
+    rcases hr with rfl | rfl <;> rfl
+  have hk : ∀ r ∈ [nv_r1, nv_r2], ∀ f v, r.pre.vals f = some v → f ∈ ["k"] := by
+    intro r hr f v hv
+    simp only [List.mem_cons, List.not_mem_nil, or_false] at hr
+    rcases hr with rfl | rfl <;>
+      (simp only [nv_r1, nv_r2, nv_row] at hv; split at hv <;> simp_all)
+  exact ⟨hb, hp, hk, block_WF nv_sem nv_build hb ["k"] "p" _ hp hk⟩
+
 /-- A flushed file is index-covered at both levels. -/
 theorem flush_WF (s : Sem) (build : List Str → (Str → Bool)) (hb : SoundBuild build)
     (keys : List String) (parts : List (String × List Row))
@@ -22,6 +49,29 @@ theorem flush_WF (s : Sem) (build : List Str → (Str → Bool)) (hb : SoundBuil
     (hk : ∀ p ∈ parts, ∀ r ∈ p.2, ∀ f v, r.pre.vals f = some v → f ∈ keys) :
     FileWF s (flushFile s build keys parts) :=
   flush_WF_aux s build hb keys parts hp hk
+
+/-- non-vacuity: the premises of `flush_WF` hold for two partition buffers (two rows and one row); the theorem applies -/
+example : SoundBuild nv_build ∧
+    (∀ p ∈ [("p", [nv_r1, nv_r2]), ("q", [nv_r3])], ∀ r ∈ p.2, r.pre.pid = p.1) ∧
+    (∀ p ∈ [("p", [nv_r1, nv_r2]), ("q", [nv_r3])], ∀ r ∈ p.2, ∀ f v, r.pre.vals f = some v → f ∈ ["k"]) ∧
+    FileWF nv_sem (flushFile nv_sem nv_build ["k"] [("p", [nv_r1, nv_r2]), ("q", [nv_r3])]) := by
+  have hb : SoundBuild nv_build := by intro l x h; simp [nv_build, h]
+  have hp : ∀ p ∈ [("p", [nv_r1, nv_r2]), ("q", [nv_r3])], ∀ r ∈ p.2, r.pre.pid = p.1 := by
+    intro p hp r hr
+    simp only [List.mem_cons, List.not_mem_nil, or_false] at hp
+    rcases hp with rfl | rfl <;> simp only [List.mem_cons, List.not_mem_nil, or_false] at hr
+    · rcases hr with rfl | rfl <;> rfl
+    · subst hr; rfl
+  have hk : ∀ p ∈ [("p", [nv_r1, nv_r2]), ("q", [nv_r3])], ∀ r ∈ p.2, ∀ f v, r.pre.vals f = some v → f ∈ ["k"] := by
+    intro p hp r hr f v hv
+    have hf : f = "k" := by
+      simp only [List.mem_cons, List.not_mem_nil, or_false] at hp
+      rcases hp with rfl | rfl <;> simp only [List.mem_cons, List.not_mem_nil, or_false] at hr
+      · rcases hr with rfl | rfl <;>
+          (simp only [nv_r1, nv_r2, nv_row] at hv; split at hv <;> simp_all)
+      · subst hr; simp only [nv_r3, nv_row] at hv; split at hv <;> simp_all
+    simp [hf]
+  exact ⟨hb, hp, hk, flush_WF nv_sem nv_build hb ["k"] _ hp hk⟩
 
 /-- A block lists exactly the indexed keys its rows provided as (non-NaN) numbers. -/
 theorem minmax_keys_exact (keys : List String) (rows : List Row) (k : String) :
@@ -35,11 +85,110 @@ theorem mergeGroup_WF (s : Sem) (build : List Str → (Str → Bool)) (hb : Soun
     (h : mergeGroup s build g = some b') : BlockWF s b' :=
   mergeGroup_WF_aux s build hb g b' hg hwf h
 
+/-- witness blocks: three flushed single-row blocks, two of partition `p`, one of `q` -/
+private def nv_bA : Block := mkBlock nv_sem nv_build ["k"] "p" [nv_r1]
+private def nv_bB : Block := mkBlock nv_sem nv_build ["k"] "p" [nv_r2]
+private def nv_bC : Block := mkBlock nv_sem nv_build ["k"] "q" [nv_r3]
+
+/-- non-vacuity: the premises of `mergeGroup_WF` hold for a group of two flushed blocks of the same partition and key set (ranges [5,5] and [-3,-3]); the merged block spans [-3,5], holds both rows, and the theorem applies -/
+example : ∃ b', SoundBuild nv_build ∧ ValidGroup [nv_bA, nv_bB] ∧ (∀ b ∈ [nv_bA, nv_bB], BlockWF nv_sem b) ∧
+    mergeGroup nv_sem nv_build [nv_bA, nv_bB] = some b' ∧ b'.md.MinMaxIndexes = [("k", ⟨-3, 5⟩)] ∧
+    b'.rows.length = 2 ∧ BlockWF nv_sem b' := by
+  have hb : SoundBuild nv_build := by intro l x h; simp [nv_build, h]
+  have hrow : ∀ (pid : String) (n : Int) (msg : String),
+      BlockWF nv_sem (mkBlock nv_sem nv_build ["k"] pid [nv_row pid n msg]) := by
+    intro pid n msg
+    refine block_WF nv_sem nv_build hb ["k"] pid _ ?_ ?_
+    · intro r hr; simp only [List.mem_cons, List.not_mem_nil, or_false] at hr; subst hr; rfl
+    · intro r hr f v hv
+      simp only [List.mem_cons, List.not_mem_nil, or_false] at hr; subst hr
+      simp only [nv_row] at hv; split at hv <;> simp_all
+  have hg : ValidGroup [nv_bA, nv_bB] := by
+    refine ⟨by simp, ?_⟩
+    have key : sameKeys nv_bA.md.MinMaxIndexes nv_bB.md.MinMaxIndexes := by
+      intro k
+      have eA : nv_bA.md.MinMaxIndexes = [("k", ⟨5, 5⟩)] := by decide
+      have eB : nv_bB.md.MinMaxIndexes = [("k", ⟨-3, -3⟩)] := by decide
+      rw [eA, eB]
+      simp only [List.lookup_cons, List.lookup_nil]
+      cases (k == "k") <;> rfl
+    intro x hx y hy
+    simp only [List.mem_cons, List.not_mem_nil, or_false] at hx hy
+    rcases hx with rfl | rfl <;> rcases hy with rfl | rfl
+    · exact ⟨rfl, fun _ => rfl⟩
+    · exact ⟨rfl, key⟩
+    · exact ⟨rfl, fun k => (key k).symm⟩
+    · exact ⟨rfl, fun _ => rfl⟩
+  have hwf : ∀ b ∈ [nv_bA, nv_bB], BlockWF nv_sem b := by
+    intro b hbm
+    simp only [List.mem_cons, List.not_mem_nil, or_false] at hbm
+    rcases hbm with rfl | rfl
+    · exact hrow "p" 5 "hello world"
+    · exact hrow "p" (-3) "bye"
+  exact ⟨_, hb, hg, hwf, rfl, by decide, rfl, mergeGroup_WF nv_sem nv_build hb _ _ hg hwf rfl⟩
+
 /-- A merge output file is index-covered at both levels, for any valid grouping. -/
 theorem merge_WF (s : Sem) (build : List Str → (Str → Bool)) (hb : SoundBuild build)
     (groups : List (List Block)) (hg : ∀ g ∈ groups, ValidGroup g)
     (hwf : ∀ g ∈ groups, ∀ b ∈ g, BlockWF s b) :
     FileWF s (mergeFile s build groups) :=
   merge_WF_aux s build hb groups hg hwf
+
+/-- non-vacuity: the premises of `merge_WF` hold for a grouping with one merged pair and one copied singleton block; the theorem applies -/
+example : SoundBuild nv_build ∧ (∀ g ∈ [[nv_bA, nv_bB], [nv_bC]], ValidGroup g) ∧
+    (∀ g ∈ [[nv_bA, nv_bB], [nv_bC]], ∀ b ∈ g, BlockWF nv_sem b) ∧
+    (mergeFile nv_sem nv_build [[nv_bA, nv_bB], [nv_bC]]).blocks.length = 2 ∧
+    FileWF nv_sem (mergeFile nv_sem nv_build [[nv_bA, nv_bB], [nv_bC]]) := by
+  have hb : SoundBuild nv_build := by intro l x h; simp [nv_build, h]
+  have hrow : ∀ (pid : String) (n : Int) (msg : String),
+      BlockWF nv_sem (mkBlock nv_sem nv_build ["k"] pid [nv_row pid n msg]) := by
+    intro pid n msg
+    refine block_WF nv_sem nv_build hb ["k"] pid _ ?_ ?_
+    · intro r hr; simp only [List.mem_cons, List.not_mem_nil, or_false] at hr; subst hr; rfl
+    · intro r hr f v hv
+      simp only [List.mem_cons, List.not_mem_nil, or_false] at hr; subst hr
+      simp only [nv_row] at hv; split at hv <;> simp_all
+  have hg : ValidGroup [nv_bA, nv_bB] := by
+    refine ⟨by simp, ?_⟩
+    have key : sameKeys nv_bA.md.MinMaxIndexes nv_bB.md.MinMaxIndexes := by
+      intro k
+      have eA : nv_bA.md.MinMaxIndexes = [("k", ⟨5, 5⟩)] := by decide
+      have eB : nv_bB.md.MinMaxIndexes = [("k", ⟨-3, -3⟩)] := by decide
+      rw [eA, eB]
+      simp only [List.lookup_cons, List.lookup_nil]
+      cases (k == "k") <;> rfl
+    intro x hx y hy
+    simp only [List.mem_cons, List.not_mem_nil, or_false] at hx hy
+    rcases hx with rfl | rfl <;> rcases hy with rfl | rfl
+    · exact ⟨rfl, fun _ => rfl⟩
+    · exact ⟨rfl, key⟩
+    · exact ⟨rfl, fun k => (key k).symm⟩
+    · exact ⟨rfl, fun _ => rfl⟩
+  have hwf : ∀ b ∈ [nv_bA, nv_bB], BlockWF nv_sem b := by
+    intro b hbm
+    simp only [List.mem_cons, List.not_mem_nil, or_false] at hbm
+    rcases hbm with rfl | rfl
+    · exact hrow "p" 5 "hello world"
+    · exact hrow "p" (-3) "bye"
+  have hgs : ∀ g ∈ [[nv_bA, nv_bB], [nv_bC]], ValidGroup g := by
+    intro g hgm
+    simp only [List.mem_cons, List.not_mem_nil, or_false] at hgm
+    rcases hgm with rfl | rfl
+    · exact hg
+    · refine ⟨by simp, ?_⟩
+      intro x hx y hy
+      simp only [List.mem_cons, List.not_mem_nil, or_false] at hx hy
+      subst hx; subst hy
+      exact ⟨rfl, fun _ => rfl⟩
+  have hwfs : ∀ g ∈ [[nv_bA, nv_bB], [nv_bC]], ∀ b ∈ g, BlockWF nv_sem b := by
+    intro g hgm
+    simp only [List.mem_cons, List.not_mem_nil, or_false] at hgm
+    rcases hgm with rfl | rfl
+    · exact hwf
+    · intro b hbm
+      simp only [List.mem_cons, List.not_mem_nil, or_false] at hbm
+      subst hbm
+      exact hrow "q" 40 "other"
+  exact ⟨hb, hgs, hwfs, rfl, merge_WF nv_sem nv_build hb _ hgs hwfs⟩
 
 end BloomVerif.C18
